@@ -452,6 +452,7 @@ pub fn run(ctx: &mut Ctx) {
     // answered with its own key, an exchange without a link resolves to no link (C04's `link_routing`
     // check, run here for the "failed => not delivered" half of C03)
     ctx.require_class::<super::c04::LinkRouting>("data_only_exchange_before_traded_one");
+    ctx.run_regressions::<super::c04::LinkRouting>();
     ctx.run::<super::c04::LinkRouting>(ctx.tier.pick(4_000, 60_000));
 }
 
